@@ -72,6 +72,9 @@ type attempt struct {
 	accCTx  ntp.Time64 // prev.cTxTime / cRxTime recorded after acceptance
 	accCRx  ntp.Time64
 	delAt   time.Time // kernel tx time of the delivery of the accepted datagram
+	rec     bool      // accCTx/accCRx recorded (when the client's next request arrived)
+	prevEv  time.Time // harness kernel time of the last event of the client before this request arrived
+	nextArr time.Time // arrival of the client's next request (zero: none yet)
 }
 
 type inflight struct {
@@ -80,7 +83,9 @@ type inflight struct {
 	h   int
 }
 
-const tolWin = 4 * time.Millisecond
+// slack for comparing timestamps taken at different points of the same clock
+// (kernel software timestamps and time.Now() are both CLOCK_REALTIME)
+const slack = 200 * time.Microsecond
 
 func TestC03(t *testing.T) {
 	scheds := vio.ReadCases[[]move](t)
@@ -101,12 +106,7 @@ func TestC03(t *testing.T) {
 		naccept += runSchedule(t, n, sc, bi, rng, out)
 		out.Emit(rec{Ev: "end", Beh: bi})
 		// let a running call finish before closing the sockets
-		if n.Calling() {
-			select {
-			case <-n.Done:
-			case <-time.After(n.Timeout + 200*time.Millisecond):
-			}
-		}
+		n.Wait(n.Timeout + 200*time.Millisecond)
 		n.Close()
 		nbeh++
 	}
@@ -135,12 +135,7 @@ func TestC03Reuse(t *testing.T) {
 			out.Emit(rec{Ev: "reset", Beh: b, Tr: kind})
 			runSchedule(t, n, sc, b, rng, out)
 			out.Emit(rec{Ev: "end", Beh: b})
-			if n.Calling() {
-				select {
-				case <-n.Done:
-				case <-time.After(n.Timeout + 200*time.Millisecond):
-				}
-			}
+			n.Wait(n.Timeout + 200*time.Millisecond)
 			n.Close()
 		}
 	}
@@ -153,6 +148,7 @@ func runSchedule(t *testing.T, n *Net, sc []move, bi int, rng *rand.Rand, out *v
 	reqs := map[[2]int]*inflight{} // (ex, copy) -> request in flight
 	resps := map[[2]int]*inflight{} // (h, copy) -> response in flight
 	nex := 0
+	lastEv := time.Now() // harness time of the last datagram handed to the client (or the start)
 	var cur *attempt
 	naccept := 0
 	n.SetTheta(0)
@@ -168,10 +164,7 @@ func runSchedule(t *testing.T, n *Net, sc []move, bi int, rng *rand.Rand, out *v
 	}
 	// waitArrival: next request datagram of the client (starting a call if needed)
 	waitArrival := func() *attempt {
-		select {
-		case <-n.Done:
-		default:
-		}
+		n.Poll()
 		if !n.Calling() {
 			select {
 			case a := <-n.Arrivals: // leftover of an earlier call: ignore
@@ -183,7 +176,22 @@ func runSchedule(t *testing.T, n *Net, sc []move, bi int, rng *rand.Rand, out *v
 		select {
 		case a := <-n.Arrivals:
 			nex++
-			at := &attempt{ex: nex, arr: a}
+			at := &attempt{ex: nex, arr: a, prevEv: lastEv}
+			if p := atts[nex-1]; p != nil {
+				p.nextArr = a.At
+			}
+			// the client built this request after finishing its previous attempts:
+			// its interleaved-mode state now describes the last accepted exchange
+			var last *attempt
+			for _, x := range atts {
+				if x.acc && (last == nil || x.ex > last.ex) {
+					last = x
+				}
+			}
+			if last != nil && !last.rec {
+				pv := n.T.Prev()
+				last.accCTx, last.accCRx, last.rec = pv.CTxTime, pv.CRxTime, true
+			}
 			pl, _, err := n.T.Unwrap(a.B)
 			if err != nil {
 				t.Fatalf("client sent an unparsable datagram: %v", err)
@@ -212,6 +220,7 @@ func runSchedule(t *testing.T, n *Net, sc []move, bi int, rng *rand.Rand, out *v
 			// more than 3 s pass: make the previous exchange look that old
 			// (only possible while the client is quiescent between two calls; inside a
 			// call the next request is already on its way)
+			n.Poll()
 			if n.Calling() || len(n.Arrivals) > 0 {
 				continue
 			}
@@ -263,12 +272,8 @@ func runSchedule(t *testing.T, n *Net, sc []move, bi int, rng *rand.Rand, out *v
 		case "timeout":
 			// the client's call runs into its deadline; remaining attempts of the
 			// call fail at once. Wait for the call to return and forget its leftovers.
-			if n.Calling() {
-				select {
-				case <-n.Done:
-				case <-time.After(n.Timeout + time.Second):
-					t.Fatalf("client call did not return after its deadline")
-				}
+			if !n.Wait(n.Timeout + 2*time.Second) {
+				t.Fatalf("client call did not return after its deadline")
 			}
 			for len(n.Arrivals) > 0 {
 				<-n.Arrivals
@@ -286,11 +291,13 @@ func runSchedule(t *testing.T, n *Net, sc []move, bi int, rng *rand.Rand, out *v
 			if err != nil {
 				t.Fatalf("deliver failed: %v", err)
 			}
+			lastEv = delAt
 			got, lr := awaitReaction(n)
+			seen := time.Now()
 			rc := rec{Ev: "recv", Ex: exOf(cur), Want: mv.Res, Got: got, Beh: bi}
 			if got == "ok" && cur != nil && r.dst == cur.arr.Src {
 				rc.Ev = "accept"
-				fillAccept(&rc, n, cur, atts, lr, delAt)
+				fillAccept(&rc, n, cur, atts, lr, delAt, seen)
 				naccept++
 			}
 			out.Emit(rc)
@@ -366,11 +373,17 @@ func findH(n *Net, pred func(h *Handling) bool) *Handling {
 	return best
 }
 
-func fillAccept(rc *rec, n *Net, cur *attempt, atts map[int]*attempt, r reaction, delAt time.Time) {
-	// let the client finish the assignment of its interleaved-mode state
-	time.Sleep(300 * time.Microsecond)
-	pv := n.T.Prev()
-	cur.acc, cur.accCTx, cur.accCRx, cur.delAt = true, pv.CTxTime, pv.CRxTime, delAt
+func between(x, lo, hi time.Time) bool {
+	return !x.Before(lo.Add(-slack)) && !x.After(hi.Add(slack))
+}
+
+// fillAccept identifies, for a measurement the client reported, the exchange
+// each of the four combined timestamps belongs to. All windows are CAUSAL
+// (bounded by harness-side kernel timestamps of events that necessarily precede
+// or follow the client's own timestamp), so machine load widens them but cannot
+// make a correct client fall outside.
+func fillAccept(rc *rec, n *Net, cur *attempt, atts map[int]*attempt, r reaction, delAt, seen time.Time) {
+	cur.acc, cur.delAt = true, delAt
 	off := r.eval.Attrs["clock offset"].Duration()
 	rtd := r.eval.Attrs["round trip delay"].Duration()
 	rc.Il = r.eval.Attrs["interleaved"].Bool()
@@ -384,28 +397,25 @@ func fillAccept(rc *rec, n *Net, cur *attempt, atts map[int]*attempt, r reaction
 		t0, t3 := cur.req.TransmitTime, cur.req.ReceiveTime
 		t1, t2 = cur.req.OriginTime, rTx
 		tt0, tt3 = ntp.TimeFromTime64(t0, ref), ntp.TimeFromTime64(t3, ref)
-		// client side: which attempt do t0 and t3 belong to
+		// client side: which attempt do t0 and t3 belong to. t0 of attempt a was
+		// taken between the client's previous event and the arrival of a's request
+		// at the harness; t3 between the delivery of the accepted response and the
+		// arrival of the client's next request.
 		for _, a := range atts {
-			if !a.acc || a == cur {
+			if !a.acc || !a.rec || a == cur {
 				continue
 			}
 			if a.accCTx == t0 {
 				rc.T0ex = a.ex
-				d := a.arr.At.Sub(tt0)
-				rc.Win0 = d >= -50*time.Microsecond && d <= tolWin
+				rc.Win0 = between(tt0.Add(time.Nanosecond), a.prevEv, a.arr.At)
 			}
-			if a.accCRx == t3 {
+			if a.accCRx == t3 && !a.nextArr.IsZero() {
 				rc.T3ex = a.ex
-				d := tt3.Sub(a.delAt)
-				rc.Win3 = d >= -50*time.Microsecond && d <= tolWin
+				rc.Win3 = between(tt3.Add(time.Nanosecond), a.delAt, a.nextArr)
 			}
 		}
 	} else {
-		// t1, t2 are the accepted datagram's own fields; the client's t0/t3 are not
-		// on the wire: they are located by the harness's kernel timestamps of the
-		// request's arrival and of the response's delivery (windows of tolWin)
 		t1, t2 = rRx, rTx
-		tt0, tt3 = cur.arr.At, delAt
 	}
 	// server side
 	if h := findH(n, func(h *Handling) bool { return h.Rxt64 == t1 }); h != nil {
@@ -413,16 +423,20 @@ func fillAccept(rc *rec, n *Net, cur *attempt, atts map[int]*attempt, r reaction
 		// all server timestamps carry that handling's theta
 		st1 := ntp.TimeFromTime64(t1, ref.Add(h.Theta))
 		st2 := ntp.TimeFromTime64(t2, ref.Add(h.Theta))
-		reco := ntp.ClockOffset(tt0, st1, st2, tt3)
-		d := off - reco
 		if rc.Il {
+			d := off - ntp.ClockOffset(tt0, st1, st2, tt3)
 			rc.Reco = d >= -3 && d <= 3
 		} else {
-			// t0 in [arrival - tolWin, arrival], t3 in [delivery, delivery + tolWin]
-			rc.Reco = d >= -tolWin && d <= tolWin
-			rtdTrue := ntp.RoundTripDelay(tt0, st1, st2, tt3)
-			x := rtd - rtdTrue
-			in := x >= -100*time.Microsecond && x <= 2*tolWin
+			// t1, t2 are the accepted datagram's own fields; the client's t0/t3 are
+			// not on the wire. t0 lies in [P, A] (previous event of the client ..
+			// arrival of this request), t3 in [D, J] (delivery of the response .. the
+			// harness saw the client's log record). The reported offset and delay
+			// must be those of SOME such t0, t3.
+			P, A, D, J := cur.prevEv, cur.arr.At, delAt, seen
+			offLo, offHi := ntp.ClockOffset(A, st1, st2, J), ntp.ClockOffset(P, st1, st2, D)
+			rtdLo, rtdHi := ntp.RoundTripDelay(A, st1, st2, D), ntp.RoundTripDelay(P, st1, st2, J)
+			rc.Reco = off >= offLo-slack && off <= offHi+slack
+			in := rtd >= rtdLo-slack && rtd <= rtdHi+slack
 			rc.T0ex, rc.T3ex, rc.Win0, rc.Win3 = cur.ex, cur.ex, in, in
 		}
 		rc.Err = clamp(off - h.Theta)
